@@ -52,22 +52,23 @@ theorem lin_zero_iff (s : EqSystem) (hs : Homogeneous s) (prec : List Bool) (sma
   rw [ksOf_homog hs] at hiff
   exact hiff
 
-/-- the call returns (does not raise) for a homogeneous system, well-shaped arguments and a state
+/-- the call returns (does not raise) for a homogeneous system with at least one reaction (with none,
+    `NumSysLin.f` raises TypeError — mirrored), well-shaped arguments and a state
     without zero entries — so the hypotheses `… = .ok r` above are satisfiable at every positive state -/
 theorem lin_defined (s : EqSystem) (hs : Homogeneous s) (prec : List Bool) (small : ℝ) (y p : List ℝ)
-    (hshape : shapeOk s y p = true) (hy : ∀ x ∈ y, x ≠ 0) :
+    (hshape : shapeOk s y p = true) (hnr : 0 < s.nr) (hy : ∀ x ∈ y, x ≠ 0) :
     ∃ r, numSysLinF s prec small y p = .ok r :=
-  numSysLinF_defined hs prec small hshape hy
+  numSysLinF_defined hs prec small hshape hnr hy
 
 /-- headline, both directions in one statement: at a positive state of a homogeneous system the call
     returns a vector, and that vector is zero exactly at equilibrium states with the initial totals -/
 theorem lin_vanishes_exactly_at_equilibrium (s : EqSystem) (hs : Homogeneous s) (y p : List ℝ)
-    (hshape : shapeOk s y p = true) (hy : ∀ x ∈ y, 0 < x) :
+    (hshape : shapeOk s y p = true) (hnr : 0 < s.nr) (hy : ∀ x ∈ y, 0 < x) :
     ∃ r, numSysLinF s [] 0 y p = .ok r ∧
       ((∀ x ∈ r, x = 0) ↔
         (∀ νK ∈ (netStoichs s).zip (eqParamsOf s p), quotient y νK.1 = νK.2) ∧
         (∀ b ∈ compMat s, total b y = total b (initConcsOf s p))) := by
-  obtain ⟨r, hr⟩ := lin_defined s hs [] 0 y p hshape (fun x hx => (hy x hx).ne')
+  obtain ⟨r, hr⟩ := lin_defined s hs [] 0 y p hshape hnr (fun x hx => (hy x hx).ne')
   exact ⟨r, hr, lin_zero_iff s hs [] 0 y p r hr⟩
 
 /-! ## Squared and relative variables -/
